@@ -1,7 +1,7 @@
 (* C10 -- Rule selection: FIRST takes the first matching rule, BEST the shortest result.
    Model: Schc.cm_compress (manager.py).  Only statements; proofs in theories/SchcRules.v. *)
 From Coq Require Import ZArith List Bool.
-From MS Require Import PyBase Bits Schc SchcSpec SchcRules Buffer BufferAbs Compute SchcBytes SchcRefine ParserBytes ParserRefine ComputeBytes ComputeRefine ManagerBytes ManagerRefine Parsers ManagerDefault.
+From MS Require Import PyBase Bits Schc SchcSpec SchcRules Buffer BufferAbs Compute SchcBytes SchcRefine ParserBytes ParserRefine ComputeBytes ComputeRefine ManagerBytes ManagerRefine Parsers ManagerDefault ManagerDefaultBytes.
 Import ListNotations.
 Open Scope Z_scope.
 
@@ -114,6 +114,16 @@ Theorem c10_default_first parse rules packet d fs pl r0 :
   exists s, cm_compress parse rules packet d FIRST = Ok s.
 Proof. exact (cm_compress_default_first parse rules packet d fs pl r0). Qed.
 
+(* the same on Buffers: ContextManager.compress with a byte-level parser of the registry *)
+Theorem c10_default_best_bytes st rules packet d fs pl r0 :
+  Forall canon_rule rules -> canon packet -> bside packet = LEFT ->
+  let arules := map (abs_rule abs) rules in
+  Parsers.factory st (abs packet) = Ok (fs, pl) -> forallb rule_typed arules = true ->
+  (forall r, In r (filter (spec_rule_applies (mkpdesc d fs pl)) arules) -> exists s, compress (mkpdesc d fs pl) r (Some d) = Ok s) ->
+  In r0 rules -> brule_nature r0 = NoCompression ->
+  exists x, bcm_compress (bfactory st) rules packet d BEST = Ok x /\ canon x /\ blen x <= blen (brule_id r0) + blen packet.
+Proof. exact (bcm_compress_default_best_stack st rules packet d fs pl r0). Qed.
+
 Print Assumptions c10_first.
 Print Assumptions c10_best.
 Print Assumptions c10_best_earliest.
@@ -128,3 +138,4 @@ Print Assumptions c10_factory_refines.
 Print Assumptions c10_default_best.
 Print Assumptions c10_default_best_stack.
 Print Assumptions c10_default_first.
+Print Assumptions c10_default_best_bytes.
